@@ -1407,7 +1407,8 @@ theorem firstPick_none {α} {pick : NetType → Option α} {ts : List NetType} :
 satisfies the set invariant and runs the group's policy -/
 structure GInv (g : Group) : Prop where
   hasSets : g.hasSets = needsAlive g.policy
-  sets : g.hasSets = true → ∀ t, SInv (g.sets t) ∧ (g.sets t).policy = g.policy
+  sets : g.hasSets = true → ∀ t, SInv (g.sets t) ∧ (g.sets t).policy = g.policy ∧
+    (g.sets t).n = g.n ∧ (g.sets t).tol = g.tol ∧ (g.sets t).offs = g.offs
 
 /-- what `_select` answers under the three kinds of policy -/
 theorem select1_fixed (rnd : Nat → Nat → Nat) (g : Group) (t : NetType) (fi : Int) (excl : Option Nat) :
@@ -1721,5 +1722,1148 @@ theorem select_mem_all (rnd : Nat → Nat → Nat → Nat) (g : Group) (t : NetT
     | noDialers => rfl
     | outOfRange => rfl
     | unsupported => rfl
+
+
+/-- the state on which the measured branch decides, and what it contains -/
+theorem notify_some_eq {s : ASet} {d : Nat} {alive : Bool} {raw : Int} (hs : SInv s)
+    (hm : s.policy.isMin = true) (ok : NotifyOk s d (some raw)) :
+    ∃ s1, (notify s d alive (some raw)).1 = decide2 s1 d alive (raw + s.offs d) s.minL ∧
+      BInv s1 ∧ s1.tol = s.tol ∧ s1.policy = s.policy ∧ s1.lat = upd s.lat d (some raw) ∧
+      s1.minD = s.minD ∧ s1.minL = s.minL ∧
+      (∀ e, e ∈ s1.entries ↔ (e ∈ s.entries ∧ e.d ≠ d) ∨ (alive = true ∧ e = ⟨d, raw + s.offs d⟩)) := by
+  have hi := hs.idx
+  have hd := ok.dlt
+  have hbnd := ok.bound raw rfl
+  have htol := hs.tol0
+  unfold notify
+  simp only [hm, if_true]
+  cases alive
+  · by_cases hal : ∃ k, s.idx d = .at k
+    · obtain ⟨k, hk⟩ := hal
+      obtain ⟨f1, f2, f3, f4, f5, f6, f7, f8⟩ := removeAt_frame hi hd hk
+      have hb0 := binv_removeAt hs.toBInv hd hk
+      have e1 : (phase1 s d false (some raw)).1 = removeAt s d k := by simp [phase1, hk, hm]
+      obtain ⟨g1, g2, g3, g4, g5, g6, g7, g8⟩ := record_frame (removeAt s d k) d raw
+      have hd0 : d < (removeAt s d k).n := by rw [f1]; exact hd
+      have hb1 : BInv (record (removeAt s d k) d raw) :=
+        binv_record hb0.idx hd0 hb0.tol0 hb0.slBound (fun h e he _ => hb0.latCons h e he) (by rw [f3]; omega)
+      refine ⟨record (removeAt s d k) d raw, ?_, hb1, by rw [g2, f2], by rw [g4, f4], by rw [g6, f5], by rw [g7, f6], by rw [g8, f7], ?_⟩
+      · simp only [phase2]; rw [e1, f3, f7]
+      · intro e
+        rw [mem_record raw hb0.idx hd0, mem_removeAt hi hd hk]
+        constructor
+        · rintro (⟨⟨h1, h2⟩, _⟩ | ⟨_, k', hk'⟩)
+          · exact Or.inl ⟨h1, h2⟩
+          · exact absurd hk' (f8 k')
+        · rintro (h | ⟨h, _⟩)
+          · exact Or.inl ⟨h, h.2⟩
+          · cases h
+    · have hn : ∀ k, s.idx d ≠ .at k := fun k hk => hal ⟨k, hk⟩
+      have e1 : (phase1 s d false (some raw)).1 = s := by
+        cases hk : s.idx d with
+        | «at» k => exact absurd ⟨k, hk⟩ hal
+        | init => simp [phase1, hk]
+        | notAlive => simp [phase1, hk]
+      obtain ⟨g1, g2, g3, g4, g5, g6, g7, g8⟩ := record_frame s d raw
+      have hb1 : BInv (record s d raw) :=
+        binv_record hi hd hs.tol0 hs.slBound (fun h e he _ => hs.latCons h e he) (by omega)
+      refine ⟨record s d raw, ?_, hb1, g2, g4, g6, g7, g8, ?_⟩
+      · simp only [phase2]; rw [e1]
+      · intro e
+        rw [mem_record raw hi hd]
+        constructor
+        · rintro (⟨h1, h2⟩ | ⟨_, k', hk'⟩)
+          · exact Or.inl ⟨h1, h2⟩
+          · exact absurd hk' (hn k')
+        · rintro (h | ⟨h, _⟩)
+          · exact Or.inl h
+          · cases h
+  · by_cases hal : ∃ k, s.idx d = .at k
+    · obtain ⟨k, hk⟩ := hal
+      have e1 : (phase1 s d true (some raw)).1 = s := by simp [phase1, hk]
+      obtain ⟨g1, g2, g3, g4, g5, g6, g7, g8⟩ := record_frame s d raw
+      have hb1 : BInv (record s d raw) :=
+        binv_record hi hd hs.tol0 hs.slBound (fun h e he _ => hs.latCons h e he) (by omega)
+      refine ⟨record s d raw, ?_, hb1, g2, g4, g6, g7, g8, ?_⟩
+      · simp only [phase2]; rw [e1]
+      · intro e
+        rw [mem_record raw hi hd]
+        constructor
+        · rintro (h | ⟨h, _⟩)
+          · exact Or.inl h
+          · exact Or.inr ⟨rfl, h⟩
+        · rintro (h | ⟨_, h⟩)
+          · exact Or.inl h
+          · exact Or.inr ⟨h, k, hk⟩
+    · have hn : ∀ k, s.idx d ≠ .at k := fun k hk => hal ⟨k, hk⟩
+      have e1 : (phase1 s d true (some raw)).1 = join s d := by
+        cases hk : s.idx d with
+        | «at» k => exact absurd ⟨k, hk⟩ hal
+        | init => simp [phase1, hk]
+        | notAlive => simp [phase1, hk]
+      have hij := idxInv_join s d hi hd hn
+      have hdj : d < (join s d).n := hd
+      obtain ⟨g1, g2, g3, g4, g5, g6, g7, g8⟩ := record_frame (join s d) d raw
+      have hb1 : BInv (record (join s d) d raw) := by
+        apply binv_record hij hdj hs.tol0
+        · intro e he
+          rcases (mem_join s d e).mp he with he | he
+          · exact hs.slBound e he
+          · subst he; exact hour_pos
+        · intro h e he hne
+          rcases (mem_join s d e).mp he with he | he
+          · have := hs.latCons h e he
+            simpa [expSl, join] using this
+          · subst he; exact absurd rfl hne
+        · show raw + s.offs d < hour
+          omega
+      refine ⟨record (join s d) d raw, ?_, hb1, g2, g4, g6, g7, g8, ?_⟩
+      · simp only [phase2]; rw [e1]; rfl
+      · intro e
+        rw [mem_record raw hij hdj]
+        constructor
+        · rintro (⟨h1, h2⟩ | ⟨h, _⟩)
+          · rcases (mem_join s d e).mp h1 with h1 | h1
+            · exact Or.inl ⟨h1, h2⟩
+            · subst h1; exact absurd rfl h2
+          · exact Or.inr ⟨rfl, h⟩
+        · rintro (⟨h1, h2⟩ | ⟨_, h⟩)
+          · exact Or.inl ⟨(mem_join s d e).mpr (Or.inl h1), h2⟩
+          · refine Or.inr ⟨h, s.entries.length, ?_⟩
+            simp [join, upd]
+
+/-- when `calcMin` replaces a non-nil cached best, the new one passed the gate against it -/
+theorem calcMin_change {s : ASet} {b b' : Nat} (hD : s.minD = some b) (hD' : (calcMin s).minD = some b')
+    (hne : b ≠ b') :
+    (⟨b', (calcMin s).minL⟩ : Entry) ∈ s.entries ∧ gate s.tol (calcMin s).minL s.minL = true := by
+  obtain ⟨_, _, h3, _⟩ := scanMin_spec s.entries none
+  unfold calcMin at hD' ⊢
+  rw [hD] at hD' ⊢
+  simp only at hD' ⊢
+  split at hD'
+  · rename_i hc
+    simp only [Bool.and_eq_true] at hc
+    rw [if_pos (by simp [hc])]
+    simp only at hD' ⊢
+    exact ⟨(h3 b' hD').1, hc.2⟩
+  · rw [hD] at hD'; cases hD'; exact absurd rfl hne
+
+/-- **the tolerance rule as a relation between consecutive states** (one notification) -/
+theorem switch_notify {s : ASet} {d : Nat} {alive : Bool} {snap : Option Int} (hs : SInv s)
+    (hm : s.policy.isMin = true) (ok : NotifyOk s d snap) {b b' : Nat}
+    (hb : s.minD = some b) (hb' : (notify s d alive snap).1.minD = some b') (hne : b ≠ b') :
+    (¬ ∃ e ∈ (notify s d alive snap).1.entries, e.d = b) ∨
+    (notify s d alive snap).1.lat b = none ∨
+    (∃ eb ∈ (notify s d alive snap).1.entries, ∃ eb' ∈ (notify s d alive snap).1.entries,
+      eb.d = b ∧ eb'.d = b' ∧ eb'.sl ≤ eb.sl ∧ (eb'.sl + s.tol ≤ eb.sl ∨ eb.sl < s.tol)) := by
+  have hi := hs.idx
+  have hd := ok.dlt
+  cases snap with
+  | some raw =>
+    obtain ⟨s1, heq, hb1, ft, fp, fl, fD, fL, hmem⟩ := notify_some_eq (alive := alive) hs hm ok
+    rw [heq] at hb' ⊢
+    obtain ⟨_, _, fe, _, _, _, _, flat⟩ := decide2_frame s1 d alive (raw + s.offs d) s.minL
+    rw [fe, flat]
+    unfold decide2 at hb'
+    cases alive
+    · -- dead: only change is "best died"
+      simp only [Bool.false_and, Bool.false_eq_true, if_false, Bool.not_false, Bool.true_or, if_true] at hb'
+      by_cases hD : s1.minD = some d
+      · left
+        rintro ⟨e, he, hed⟩
+        rw [fD, hb] at hD
+        cases hD
+        rcases (hmem e).mp he with ⟨_, h⟩ | ⟨h, _⟩
+        · exact h hed
+        · cases h
+      · rw [if_neg hD, fD, hb] at hb'; cases hb'; exact absurd rfl hne
+    · simp only [Bool.true_and, Bool.not_true, Bool.false_or] at hb'
+      obtain ⟨eb, heb, hebd, hebl⟩ := hs.best b hb
+      by_cases hg : gate s1.tol (raw + s.offs d) s1.minL = true
+      · rw [if_pos hg] at hb'
+        simp only [Option.some.injEq] at hb'
+        subst hb'
+        have hbd : eb.d ≠ d := by rw [hebd]; exact hne
+        rcases hebl with hebl | ⟨_, hl⟩
+        · right; right
+          rw [gate_iff, ft, fL] at hg
+          refine ⟨eb, (hmem eb).mpr (Or.inl ⟨heb, hbd⟩), ⟨d, raw + s.offs d⟩, (hmem _).mpr (Or.inr ⟨rfl, rfl⟩), hebd, rfl, ?_, ?_⟩
+          · simp only; omega
+          · simp only; omega
+        · right; left
+          rw [fl]; simp [upd, hne, hl]
+      · rw [if_neg hg] at hb'
+        by_cases hD : s1.minD = some d
+        · rw [if_pos hD] at hb'
+          have hbd : b = d := by rw [fD, hb] at hD; cases hD; rfl
+          subst hbd
+          by_cases hw : raw + s.offs b > s.minL
+          · simp only [hw, decide_true, if_true] at hb'
+            obtain ⟨hmemb, hgate⟩ := calcMin_change (s := { s1 with minL := raw + s.offs b }) hD hb' hne
+            right; right
+            rw [gate_iff] at hgate
+            simp only at hmemb hgate
+            refine ⟨⟨b, raw + s.offs b⟩, (hmem _).mpr (Or.inr ⟨rfl, rfl⟩), _, hmemb, rfl, rfl, ?_, ?_⟩
+            · simp only; omega
+            · simp only; omega
+          · simp only [hw, decide_false, Bool.false_eq_true, if_false] at hb'
+            rw [hD] at hb'; cases hb'; exact absurd rfl hne
+        · rw [if_neg hD, fD, hb] at hb'; cases hb'; exact absurd rfl hne
+  | none =>
+    -- without a measurement the cached best changes only when it is the node that died
+    have hlat : s.lat d = none := by
+      have := ok.mono hm
+      cases hl : s.lat d with
+      | none => rfl
+      | some r => exact absurd rfl (this (by simp [hl]))
+    unfold notify at hb' ⊢
+    simp only [hm, if_true] at hb' ⊢
+    cases alive
+    · by_cases hal : ∃ k, s.idx d = .at k
+      · obtain ⟨k, hk⟩ := hal
+        by_cases hD : s.minD = some d
+        · have e1 : (phase1 s d false none).1 = calcMin (resetBest (removeAt s d k)) := by
+            simp [phase1, hk, hm, hD]
+          simp only [phase2, Bool.false_and, Bool.false_eq_true, if_false] at hb' ⊢
+          rw [e1]
+          left
+          obtain ⟨_, _, _, _, _, _, fe, _⟩ := calcMin_frame (resetBest (removeAt s d k))
+          rw [fe]
+          rintro ⟨e, he, hed⟩
+          have : b = d := by rw [hb] at hD; cases hD; rfl
+          subst this
+          exact ((mem_removeAt hi hd hk e).mp he).2 hed
+        · have e1 : (phase1 s d false none).1 = removeAt s d k := by
+            simp [phase1, hk, hm, hD]
+          simp only [phase2, Bool.false_and, Bool.false_eq_true, if_false] at hb'
+          rw [e1, (removeAt_frame0 s d k).2.2.2.2.2.1, hb] at hb'
+          cases hb'; exact absurd rfl hne
+      · have e1 : (phase1 s d false none).1 = s := by
+          cases hk : s.idx d with
+          | «at» k => exact absurd ⟨k, hk⟩ hal
+          | init => simp [phase1, hk]
+          | notAlive => simp [phase1, hk]
+        simp only [phase2, Bool.false_and, Bool.false_eq_true, if_false] at hb'
+        rw [e1, hb] at hb'
+        cases hb'; exact absurd rfl hne
+    · have hnn : s.minD.isNone = false := by rw [hb]; rfl
+      by_cases hal : ∃ k, s.idx d = .at k
+      · obtain ⟨k, hk⟩ := hal
+        have e1 : (phase1 s d true none).1 = s := by simp [phase1, hk]
+        simp only [phase2] at hb'
+        rw [e1] at hb'
+        simp only [hnn, Bool.and_false, Bool.false_eq_true, if_false] at hb'
+        rw [hb] at hb'; cases hb'; exact absurd rfl hne
+      · have e1 : (phase1 s d true none).1 = join s d := by
+          cases hk : s.idx d with
+          | «at» k => exact absurd ⟨k, hk⟩ hal
+          | init => simp [phase1, hk]
+          | notAlive => simp [phase1, hk]
+        simp only [phase2] at hb'
+        rw [e1] at hb'
+        have : (join s d).minD.isNone = false := hnn
+        simp only [this, Bool.and_false, Bool.false_eq_true, if_false] at hb'
+        have : (join s d).minD = s.minD := rfl
+        rw [this, hb] at hb'; cases hb'; exact absurd rfl hne
+
+
+theorem phase1_frame (s : ASet) (d : Nat) (alive : Bool) (snap : Option Int) :
+    (phase1 s d alive snap).1.n = s.n ∧ (phase1 s d alive snap).1.tol = s.tol ∧
+    (phase1 s d alive snap).1.offs = s.offs ∧ (phase1 s d alive snap).1.policy = s.policy ∧
+    (phase1 s d alive snap).1.lat = s.lat := by
+  unfold phase1
+  cases alive
+  · simp only [Bool.false_eq_true, if_false]
+    cases hk : s.idx d with
+    | «at» k =>
+      simp only
+      obtain ⟨a1, a2, a3, a4, a5, _⟩ := removeAt_frame0 s d k
+      split
+      · obtain ⟨b1, b2, b3, b4, _, b6, _⟩ := calcMin_frame (resetBest (removeAt s d k))
+        exact ⟨by rw [b1]; exact a1, by rw [b2]; exact a2, by rw [b3]; exact a3, by rw [b4]; exact a4, by rw [b6]; exact a5⟩
+      · exact ⟨a1, a2, a3, a4, a5⟩
+    | init => simp
+    | notAlive => simp
+  · simp only [if_true]
+    cases hk : s.idx d <;> simp [join]
+
+theorem phase2_frame (s : ASet) (d : Nat) (alive : Bool) (snap : Option Int) :
+    (phase2 s d alive snap).1.n = s.n ∧ (phase2 s d alive snap).1.tol = s.tol ∧
+    (phase2 s d alive snap).1.offs = s.offs ∧ (phase2 s d alive snap).1.policy = s.policy ∧
+    (phase2 s d alive snap).1.lat = (match snap with | some raw => upd s.lat d (some raw) | none => s.lat) := by
+  unfold phase2
+  cases snap with
+  | none => simp only; split <;> simp
+  | some raw =>
+    simp only
+    obtain ⟨a, _, _, _, b, c, e, f⟩ := decide2_frame (record s d raw) d alive (raw + s.offs d) s.minL
+    obtain ⟨g1, g2, g3, g4, _, g6, _⟩ := record_frame s d raw
+    rw [a, b, c, e, f, g1, g2, g3, g4, g6]
+    simp
+
+theorem notify_frame (s : ASet) (d : Nat) (alive : Bool) (snap : Option Int) :
+    (notify s d alive snap).1.n = s.n ∧ (notify s d alive snap).1.tol = s.tol ∧
+    (notify s d alive snap).1.offs = s.offs ∧ (notify s d alive snap).1.policy = s.policy ∧
+    (∀ x, (notify s d alive snap).1.lat x ≠ none → s.lat x ≠ none ∨ (x = d ∧ snap ≠ none)) := by
+  unfold notify
+  simp only
+  obtain ⟨a1, a2, a3, a4, a5⟩ := phase1_frame s d alive (if s.policy.isMin = true then snap else none)
+  obtain ⟨b1, b2, b3, b4, b5⟩ := phase2_frame (phase1 s d alive (if s.policy.isMin = true then snap else none)).1 d alive
+    (if s.policy.isMin = true then snap else none)
+  refine ⟨by rw [b1, a1], by rw [b2, a2], by rw [b3, a3], by rw [b4, a4], ?_⟩
+  intro x hx
+  rw [b5, a5] at hx
+  cases hm : s.policy.isMin
+  · simp [hm] at hx; exact Or.inl hx
+  · simp only [hm, if_true] at hx
+    cases snap with
+    | none => exact Or.inl hx
+    | some raw =>
+      simp only [upd] at hx
+      by_cases hxd : x = d
+      · exact Or.inr ⟨hxd, by simp⟩
+      · simp [hxd] at hx; exact Or.inl hx
+
+theorem setPolicy_frame (s : ASet) (p : Policy) (snapAll : Nat → Option Int) :
+    (setPolicy s p snapAll).n = s.n ∧ (setPolicy s p snapAll).tol = s.tol ∧
+    (setPolicy s p snapAll).offs = s.offs ∧ (setPolicy s p snapAll).policy = p := by
+  unfold setPolicy
+  split
+  · rename_i h; simp [h]
+  · simp only
+    split
+    · simp
+    · obtain ⟨a, b, c, e, _⟩ := calcMin_frame
+        { s with policy := p, lat := (resnap { s with policy := p, lat := fun _ => none, minL := hour, minD := none } snapAll s.entries (fun _ => none)).2,
+                 minL := hour, minD := none,
+                 entries := (resnap { s with policy := p, lat := fun _ => none, minL := hour, minD := none } snapAll s.entries (fun _ => none)).1 }
+      rw [a, b, c, e]
+      simp
+
+/-! ### `notifyAll` (construction of a set) -/
+
+theorem notifyAll_fst (alive : Nat → Bool) (snap : Nat → Option Int) (ds : List Nat) :
+    ∀ (s : ASet) (c : List Bool),
+      (ds.foldl (fun (acc : ASet × List Bool) d =>
+          let r := notify acc.1 d (alive d) (snap d); (r.1, acc.2 ++ r.2)) (s, c)).1 =
+      (ds.foldl (fun (acc : ASet × List Bool) d =>
+          let r := notify acc.1 d (alive d) (snap d); (r.1, acc.2 ++ r.2)) (s, [])).1 := by
+  induction ds with
+  | nil => intro s c; rfl
+  | cons d ds ih =>
+    intro s c
+    simp only [List.foldl_cons]
+    rw [ih _ (c ++ _), ih _ ([] ++ _)]
+
+theorem notifyAll_cons (s : ASet) (d : Nat) (ds : List Nat) (alive : Nat → Bool) (snap : Nat → Option Int) :
+    (notifyAll s (d :: ds) alive snap).1 = (notifyAll (notify s d (alive d) (snap d)).1 ds alive snap).1 := by
+  unfold notifyAll
+  simp only [List.foldl_cons]
+  exact notifyAll_fst alive snap ds (notify s d (alive d) (snap d)).1 ([] ++ (notify s d (alive d) (snap d)).2)
+
+/-- a set with the group's parameters, the group's policy and a lat map that only knows
+measurements the snapshot function confirms -/
+structure Good (n : Nat) (tol : Int) (offs : Nat → Int) (p : Policy) (s : ASet) : Prop where
+  inv : SInv s
+  pol : s.policy = p
+  hn : s.n = n
+  ht : s.tol = tol
+  ho : s.offs = offs
+
+theorem good_notifyAll {n : Nat} {tol : Int} {offs : Nat → Int} {p : Policy} (snap : Nat → Option Int)
+    (alive : Nat → Bool) (hb : ∀ d r, snap d = some r → r + offs d + tol < hour) :
+    ∀ (ds : List Nat) (s : ASet), (∀ d ∈ ds, d < n) → Good n tol offs p s →
+      (∀ x, s.lat x ≠ none → snap x ≠ none) →
+      Good n tol offs p (notifyAll s ds alive snap).1 ∧
+      (∀ x, (notifyAll s ds alive snap).1.lat x ≠ none → snap x ≠ none) := by
+  intro ds
+  induction ds with
+  | nil => intro s _ hg hl; exact ⟨hg, hl⟩
+  | cons d ds ih =>
+    intro s hds hg hl
+    rw [notifyAll_cons]
+    obtain ⟨f1, f2, f3, f4, f5⟩ := notify_frame s d (alive d) (snap d)
+    have ok : NotifyOk s d (snap d) := by
+      refine ⟨by rw [hg.hn]; exact hds d (by simp), fun _ h => hl d h, ?_⟩
+      intro r hr
+      rw [hg.ho, hg.ht]
+      exact hb d r hr
+    apply ih
+    · intro d' hd'; exact hds d' (by simp [hd'])
+    · exact ⟨sinv_notify hg.inv ok, by rw [f4, hg.pol], by rw [f1, hg.hn], by rw [f2, hg.ht], by rw [f3, hg.ho]⟩
+    · intro x hx
+      rcases f5 x hx with h | ⟨h1, h2⟩
+      · exact hl x h
+      · rw [h1]; exact h2
+
+theorem good_init (n : Nat) (tol : Int) (offs : Nat → Int) (p : Policy) (ht : 0 ≤ tol) :
+    Good n tol offs p (ASet.init n tol offs p) :=
+  ⟨sinv_init n tol offs p ht, rfl, rfl, rfl, rfl⟩
+
+theorem good_built {n : Nat} {tol : Int} {offs : Nat → Int} (p : Policy) (ht : 0 ≤ tol)
+    (snap : Nat → Option Int) (alive : Nat → Bool) (hb : ∀ d r, snap d = some r → r + offs d + tol < hour) :
+    Good n tol offs p (notifyAll (ASet.new n tol offs p false snap).1 (List.range n) alive snap).1 := by
+  have h0 := good_notifyAll (p := p) snap (fun _ => false) hb (List.range n) (ASet.init n tol offs p)
+    (by intro d hd; exact List.mem_range.mp hd) (good_init n tol offs p ht) (by intro x hx; simp [ASet.init] at hx)
+  have h1 := good_notifyAll (p := p) snap alive hb (List.range n) (ASet.new n tol offs p false snap).1
+    (by intro d hd; exact List.mem_range.mp hd) h0.1 h0.2
+  exact h1.1
+
+theorem good_buildSets (g : Group) (p : Policy) (snap : Nat → Nat → Option Int) (ht : 0 ≤ g.tol)
+    (hb : ∀ t d r, snap t d = some r → r + g.offs d + g.tol < hour) :
+    ∀ t, Good g.n g.tol g.offs p ((buildSets g p snap).1 t) := by
+  unfold buildSets
+  have key : ∀ (ts : List Nat) (acc : (Nat → ASet) × List GCb),
+      (∀ t, Good g.n g.tol g.offs p (acc.1 t)) →
+      ∀ t, Good g.n g.tol g.offs p ((ts.foldl (fun acc t =>
+        let r0 := ASet.new g.n g.tol g.offs p false (snap t)
+        let r1 := notifyAll r0.1 (List.range g.n) (g.alive t) (snap t)
+        (upd acc.1 t r1.1, acc.2 ++ (r0.2 ++ r1.2).map (fun b => (⟨b, t, false⟩ : GCb)))) acc).1 t) := by
+    intro ts
+    induction ts with
+    | nil => intro acc h; exact h
+    | cons t ts ih =>
+      intro acc h
+      simp only [List.foldl_cons]
+      apply ih
+      intro t'
+      simp only [upd]
+      split
+      · exact good_built p ht (snap t) (g.alive t) (hb t)
+      · exact h t'
+  exact key (List.range 6) _ (fun _ => good_init g.n g.tol g.offs p ht)
+
+/-! ### the group invariant over all histories -/
+
+/-- per-event hypotheses at group level -/
+def GEvOk (g : Group) : GEv → Prop
+  | .notify t d _ sn => g.hasSets = true → NotifyOk (g.sets t) d sn
+  | .setPolicy _ _ snap => ∀ t d r, snap t d = some r → r + g.offs d + g.tol < hour
+
+def GHistOk : Group → List GEv → Prop
+  | _, [] => True
+  | g, e :: es => GEvOk g e ∧ GHistOk (stepG g e) es
+
+theorem ginv_of_good {g : Group} (h1 : g.hasSets = needsAlive g.policy)
+    (h2 : g.hasSets = true → ∀ t, Good g.n g.tol g.offs g.policy (g.sets t)) : GInv g :=
+  ⟨h1, fun hh t => ⟨(h2 hh t).inv, (h2 hh t).pol, (h2 hh t).hn, (h2 hh t).ht, (h2 hh t).ho⟩⟩
+
+theorem gNew_tol (n : Nat) (tol : Int) (offs : Nat → Int) (p : Policy) (fi : Int)
+    (alive : Nat → Nat → Bool) (snap : Nat → Nat → Option Int) :
+    (gNew n tol offs p fi alive snap).1.tol = tol := by
+  unfold gNew
+  simp only
+  split <;> rfl
+
+theorem ginv_gNew (n : Nat) (tol : Int) (offs : Nat → Int) (p : Policy) (fi : Int)
+    (alive : Nat → Nat → Bool) (snap : Nat → Nat → Option Int) (ht : 0 ≤ tol)
+    (hb : ∀ t d r, snap t d = some r → r + offs d + tol < hour) :
+    GInv (gNew n tol offs p fi alive snap).1 := by
+  unfold gNew
+  simp only
+  cases hna : needsAlive p
+  · simp only [Bool.false_eq_true, if_false]
+    exact ginv_of_good (by simp [hna]) (by intro h; cases h)
+  · simp only [if_true]
+    refine ginv_of_good (by simp [hna]) ?_
+    intro _ t
+    exact good_buildSets (⟨n, tol, offs, p, fi, false, fun _ => ASet.init n tol offs p, alive⟩ : Group) p snap ht hb t
+
+theorem ginv_step {g : Group} {e : GEv} (hg : GInv g) (ht : 0 ≤ g.tol) (ok : GEvOk g e) :
+    GInv (stepG g e) ∧ (stepG g e).tol = g.tol := by
+  cases e with
+  | notify t d a sn =>
+    simp only [stepG, gNotify]
+    cases hh : g.hasSets
+    · simp only [Bool.false_eq_true, if_false]
+      exact ⟨⟨by have := hg.hasSets; rw [hh] at this; exact this, by intro h; cases h⟩, trivial⟩
+    · simp only [if_true]
+      have okn : NotifyOk (g.sets t) d sn := ok hh
+      obtain ⟨f1, f2, f3, f4, _⟩ := notify_frame (g.sets t) d a sn
+      obtain ⟨i1, i2, i3, i4, i5⟩ := hg.sets hh t
+      refine ⟨⟨by have := hg.hasSets; rw [hh] at this; exact this, ?_⟩, trivial⟩
+      intro _ t'
+      simp only [upd]
+      split
+      · exact ⟨sinv_notify i1 okn, by rw [f4, i2], by rw [f1, i3], by rw [f2, i4], by rw [f3, i5]⟩
+      · exact hg.sets hh t'
+  | setPolicy p fi snap =>
+    simp only [stepG, gSetPolicy]
+    have hok : ∀ t d r, snap t d = some r → r + g.offs d + g.tol < hour := ok
+    cases h1 : needsAlive g.policy <;> cases h2 : needsAlive p
+    · simp only
+      refine ⟨⟨by simp only; rw [h2, ← h1]; exact hg.hasSets, ?_⟩, trivial⟩
+      intro h; simp only at h; rw [hg.hasSets, h1] at h; cases h
+    · simp only
+      refine ⟨ginv_of_good (by simp [h2]) ?_, trivial⟩
+      intro _ t
+      exact good_buildSets g p snap ht hok t
+    · simp only
+      exact ⟨⟨by simp [h2], by intro h; cases h⟩, trivial⟩
+    · simp only
+      have hh : g.hasSets = true := by rw [hg.hasSets, h1]
+      refine ⟨⟨by simp only; rw [h2]; exact hh, ?_⟩, trivial⟩
+      intro _ t
+      obtain ⟨i1, i2, i3, i4, i5⟩ := hg.sets hh t
+      simp only
+      split
+      · obtain ⟨f1, f2, f3, f4⟩ := setPolicy_frame (g.sets t) p (snap t)
+        refine ⟨sinv_setPolicy i1 ?_, f4, by rw [f1, i3], by rw [f2, i4], by rw [f3, i5]⟩
+        intro e _ r hr
+        rw [i4, i5]
+        exact hok t e.d r hr
+      · rename_i hpp
+        have : g.policy = p := by
+          apply Classical.byContradiction; intro h; exact hpp h
+        exact ⟨i1, by rw [i2, this], i3, i4, i5⟩
+
+theorem ginv_run (h : List GEv) : ∀ (g : Group), GInv g → 0 ≤ g.tol → GHistOk g h → GInv (runG g h) := by
+  induction h with
+  | nil => intro g hg _ _; exact hg
+  | cons e es ih =>
+    intro g hg ht hok
+    obtain ⟨h1, h2⟩ := ginv_step hg ht hok.1
+    exact ih (stepG g e) h1 (by rw [h2]; exact ht) hok.2
+
+
+/-! ### the hypothesis-free part: the cached best is always a member of the alive list
+
+Needs nothing but "notifications name members": no assumption on latencies, offsets, tolerance,
+or on the order in which measurements appear. -/
+
+structure MInv (s : ASet) : Prop where
+  idx : IdxInv s
+  nonMin : s.policy.isMin = false → s.minD = none
+  bestIn : ∀ d, s.minD = some d → ∃ e ∈ s.entries, e.d = d
+
+theorem calcMin_bestIn {s : ASet} (h : ∀ d, s.minD = some d → ∃ e ∈ s.entries, e.d = d) :
+    ∀ d, (calcMin s).minD = some d → ∃ e ∈ (calcMin s).entries, e.d = d := by
+  obtain ⟨_, _, h3, _⟩ := scanMin_spec s.entries none
+  obtain ⟨_, _, _, _, _, _, fe, _⟩ := calcMin_frame s
+  intro d hd
+  rw [fe]
+  unfold calcMin at hd
+  dsimp only at hd
+  split at hd
+  · exact ⟨_, (h3 d hd).1, rfl⟩
+  · split at hd
+    · exact ⟨_, (h3 d hd).1, rfl⟩
+    · exact h d hd
+
+theorem minv_init (n : Nat) (tol : Int) (offs : Nat → Int) (p : Policy) : MInv (ASet.init n tol offs p) :=
+  ⟨idxInv_init n tol offs p, fun _ => rfl, by intro d h; simp [ASet.init] at h⟩
+
+theorem minv_notify {s : ASet} {d : Nat} (alive : Bool) (snap : Option Int) (hs : MInv s) (hd : d < s.n) :
+    MInv (notify s d alive snap).1 := by
+  have hi := hs.idx
+  obtain ⟨hi', _⟩ := idxInv_notify alive snap hi hd
+  obtain ⟨_, _, _, fpol, _⟩ := notify_frame s d alive snap
+  refine ⟨hi', ?_, ?_⟩
+  · -- random / fixed: the cached best stays nil
+    intro hm
+    rw [fpol] at hm
+    have hD := hs.nonMin hm
+    unfold notify
+    simp only [hm, Bool.false_eq_true, if_false]
+    have p1 : (phase1 s d alive none).1.minD = none ∧ (phase1 s d alive none).1.policy = s.policy := by
+      refine ⟨?_, (phase1_frame s d alive none).2.2.2.1⟩
+      unfold phase1
+      cases alive
+      · simp only [Bool.false_eq_true, if_false, hm, Bool.false_and]
+        cases hk : s.idx d with
+        | «at» k => simp only; rw [(removeAt_frame0 s d k).2.2.2.2.2.1]; exact hD
+        | init => exact hD
+        | notAlive => exact hD
+      · simp only [if_true]
+        cases hk : s.idx d <;> simp [join, hD]
+    unfold phase2
+    simp only [p1.2, hm, Bool.false_and, Bool.and_false, Bool.false_eq_true, if_false]
+    exact p1.1
+  · intro b hb
+    by_cases hm : s.policy.isMin = true
+    · unfold notify at hb ⊢
+      simp only [hm, if_true] at hb ⊢
+      cases snap with
+      | none =>
+        cases alive
+        · by_cases hal : ∃ k, s.idx d = .at k
+          · obtain ⟨k, hk⟩ := hal
+            by_cases hD : s.minD = some d
+            · have e1 : (phase1 s d false none).1 = calcMin (resetBest (removeAt s d k)) := by
+                simp [phase1, hk, hm, hD]
+              simp only [phase2, Bool.false_and, Bool.false_eq_true, if_false] at hb ⊢
+              rw [e1] at hb ⊢
+              exact calcMin_bestIn (by intro d' h; simp [resetBest] at h) b hb
+            · have e1 : (phase1 s d false none).1 = removeAt s d k := by
+                simp [phase1, hk, hm, hD]
+              simp only [phase2, Bool.false_and, Bool.false_eq_true, if_false] at hb ⊢
+              rw [e1] at hb ⊢
+              rw [(removeAt_frame0 s d k).2.2.2.2.2.1] at hb
+              obtain ⟨e, he, hed⟩ := hs.bestIn b hb
+              have hne : e.d ≠ d := by rw [hed]; intro h; apply hD; rw [hb, h]
+              exact ⟨e, (mem_removeAt hi hd hk e).mpr ⟨he, hne⟩, hed⟩
+          · have e1 : (phase1 s d false none).1 = s := by
+              cases hk : s.idx d with
+              | «at» k => exact absurd ⟨k, hk⟩ hal
+              | init => simp [phase1, hk]
+              | notAlive => simp [phase1, hk]
+            simp only [phase2, Bool.false_and, Bool.false_eq_true, if_false] at hb ⊢
+            rw [e1] at hb ⊢
+            exact hs.bestIn b hb
+        · by_cases hal : ∃ k, s.idx d = .at k
+          · obtain ⟨k, hk⟩ := hal
+            have e1 : (phase1 s d true none).1 = s := by simp [phase1, hk]
+            simp only [phase2] at hb ⊢
+            rw [e1] at hb ⊢
+            split at hb
+            · rw [if_pos (by assumption)]
+              simp only at hb ⊢
+              cases hb
+              exact (alive_iff hi hd).mp ⟨k, hk⟩
+            · rw [if_neg (by assumption)]
+              exact hs.bestIn b hb
+          · have e1 : (phase1 s d true none).1 = join s d := by
+              cases hk : s.idx d with
+              | «at» k => exact absurd ⟨k, hk⟩ hal
+              | init => simp [phase1, hk]
+              | notAlive => simp [phase1, hk]
+            simp only [phase2] at hb ⊢
+            rw [e1] at hb ⊢
+            split at hb
+            · rw [if_pos (by assumption)]
+              simp only at hb ⊢
+              cases hb
+              exact ⟨⟨d, 0⟩, by simp [join], rfl⟩
+            · rw [if_neg (by assumption)]
+              obtain ⟨e, he, hed⟩ := hs.bestIn b hb
+              exact ⟨e, (mem_join s d e).mpr (Or.inl he), hed⟩
+      | some raw =>
+        -- entries after phase1 + record, in terms of the old ones
+        have key : ∃ s1, (phase2 (phase1 s d alive (some raw)).1 d alive (some raw)).1
+              = decide2 s1 d alive (raw + s.offs d) s.minL ∧ s1.minD = s.minD ∧
+            (∀ e ∈ s.entries, e.d ≠ d → ∃ e' ∈ s1.entries, e'.d = e.d) ∧
+            (alive = true → ∃ e' ∈ s1.entries, e'.d = d) := by
+          cases alive
+          · by_cases hal : ∃ k, s.idx d = .at k
+            · obtain ⟨k, hk⟩ := hal
+              obtain ⟨f1, f2, f3, f4, f5, f6, f7, f8⟩ := removeAt_frame hi hd hk
+              have hi0 := idxInv_removeAt s d k hi hd hk
+              have hd0 : d < (removeAt s d k).n := by rw [f1]; exact hd
+              have e1 : (phase1 s d false (some raw)).1 = removeAt s d k := by simp [phase1, hk, hm]
+              obtain ⟨g1, g2, g3, g4, g5, g6, g7, g8⟩ := record_frame (removeAt s d k) d raw
+              refine ⟨record (removeAt s d k) d raw, by simp only [phase2]; rw [e1, f3, f7], by rw [g7, f6], ?_, by intro h; cases h⟩
+              intro e he hne
+              exact ⟨e, (mem_record raw hi0 hd0 e).mpr (Or.inl ⟨(mem_removeAt hi hd hk e).mpr ⟨he, hne⟩, hne⟩), rfl⟩
+            · have e1 : (phase1 s d false (some raw)).1 = s := by
+                cases hk : s.idx d with
+                | «at» k => exact absurd ⟨k, hk⟩ hal
+                | init => simp [phase1, hk]
+                | notAlive => simp [phase1, hk]
+              obtain ⟨g1, g2, g3, g4, g5, g6, g7, g8⟩ := record_frame s d raw
+              refine ⟨record s d raw, by simp only [phase2]; rw [e1], g7, ?_, by intro h; cases h⟩
+              intro e he hne
+              exact ⟨e, (mem_record raw hi hd e).mpr (Or.inl ⟨he, hne⟩), rfl⟩
+          · by_cases hal : ∃ k, s.idx d = .at k
+            · obtain ⟨k, hk⟩ := hal
+              have e1 : (phase1 s d true (some raw)).1 = s := by simp [phase1, hk]
+              obtain ⟨g1, g2, g3, g4, g5, g6, g7, g8⟩ := record_frame s d raw
+              refine ⟨record s d raw, by simp only [phase2]; rw [e1], g7, ?_, ?_⟩
+              · intro e he hne
+                exact ⟨e, (mem_record raw hi hd e).mpr (Or.inl ⟨he, hne⟩), rfl⟩
+              · intro _
+                exact ⟨_, (mem_record raw hi hd _).mpr (Or.inr ⟨rfl, k, hk⟩), rfl⟩
+            · have hn : ∀ k, s.idx d ≠ .at k := fun k hk => hal ⟨k, hk⟩
+              have e1 : (phase1 s d true (some raw)).1 = join s d := by
+                cases hk : s.idx d with
+                | «at» k => exact absurd ⟨k, hk⟩ hal
+                | init => simp [phase1, hk]
+                | notAlive => simp [phase1, hk]
+              have hij := idxInv_join s d hi hd hn
+              have hdj : d < (join s d).n := hd
+              obtain ⟨g1, g2, g3, g4, g5, g6, g7, g8⟩ := record_frame (join s d) d raw
+              refine ⟨record (join s d) d raw, by simp only [phase2]; rw [e1]; rfl, by rw [g7]; rfl, ?_, ?_⟩
+              · intro e he hne
+                exact ⟨e, (mem_record raw hij hdj e).mpr (Or.inl ⟨(mem_join s d e).mpr (Or.inl he), hne⟩), rfl⟩
+              · intro _
+                exact ⟨_, (mem_record raw hij hdj _).mpr (Or.inr ⟨rfl, s.entries.length, by simp [join, upd]⟩), rfl⟩
+        obtain ⟨s1, heq, fD, hold, hnew⟩ := key
+        rw [heq] at hb ⊢
+        obtain ⟨_, _, fe, _⟩ := decide2_frame s1 d alive (raw + s.offs d) s.minL
+        rw [fe]
+        have hold' : ∀ b, s.minD = some b → b ≠ d → ∃ e' ∈ s1.entries, e'.d = b := by
+          intro b hb hne
+          obtain ⟨e, he, hed⟩ := hs.bestIn b hb
+          obtain ⟨e', he', hed'⟩ := hold e he (by rw [hed]; exact hne)
+          exact ⟨e', he', by rw [hed', hed]⟩
+        unfold decide2 at hb
+        split at hb
+        · rename_i hc
+          simp only [Bool.and_eq_true] at hc
+          simp only at hb; cases hb
+          exact hnew hc.1
+        · split at hb
+          · rename_i hD
+            split at hb
+            · -- recomputed
+              rename_i hc
+              have := calcMin_bestIn (s := if alive = true then { s1 with minL := raw + s.offs d } else { s1 with minL := raw + s.offs d, minD := none })
+                (by
+                  cases alive
+                  · intro d' h; simp at h
+                  · intro d' h
+                    simp only [if_true] at h ⊢
+                    rw [hD] at h; cases h
+                    exact hnew rfl) b hb
+              obtain ⟨e, he, hed⟩ := this
+              obtain ⟨_, _, _, _, _, _, fe2, _⟩ := calcMin_frame (if alive = true then { s1 with minL := raw + s.offs d } else { s1 with minL := raw + s.offs d, minD := none })
+              rw [fe2] at he
+              refine ⟨e, ?_, hed⟩
+              cases alive <;> simpa using he
+            · rename_i hc
+              simp only at hb
+              rw [hD] at hb; cases hb
+              have hal : alive = true := by
+                cases alive
+                · simp at hc
+                · rfl
+              exact hnew hal
+          · rename_i hD
+            rw [fD] at hb hD
+            exact hold' b hb (by intro h; apply hD; rw [hb, h])
+    · -- non-min: nil
+      have hm' : s.policy.isMin = false := by cases h : s.policy.isMin <;> simp_all
+      have : (notify s d alive snap).1.minD = none := by
+        have hD := hs.nonMin hm'
+        unfold notify
+        simp only [hm', Bool.false_eq_true, if_false]
+        have p1 : (phase1 s d alive none).1.minD = none ∧ (phase1 s d alive none).1.policy = s.policy := by
+          refine ⟨?_, (phase1_frame s d alive none).2.2.2.1⟩
+          unfold phase1
+          cases alive
+          · simp only [Bool.false_eq_true, if_false, hm', Bool.false_and]
+            cases hk : s.idx d with
+            | «at» k => simp only; rw [(removeAt_frame0 s d k).2.2.2.2.2.1]; exact hD
+            | init => exact hD
+            | notAlive => exact hD
+          · simp only [if_true]
+            cases hk : s.idx d <;> simp [join, hD]
+        unfold phase2
+        simp only [p1.2, hm', Bool.false_and, Bool.and_false, Bool.false_eq_true, if_false]
+        exact p1.1
+      rw [this] at hb; cases hb
+
+
+theorem minv_setPolicy {s : ASet} (p : Policy) (snapAll : Nat → Option Int) (hs : MInv s) :
+    MInv (setPolicy s p snapAll) := by
+  obtain ⟨hi', _⟩ := idxInv_setPolicy p snapAll hs.idx
+  obtain ⟨_, _, _, fp⟩ := setPolicy_frame s p snapAll
+  unfold setPolicy at fp ⊢
+  by_cases hp : s.policy = p
+  · rw [if_pos hp]; exact hs
+  · rw [if_neg hp] at fp ⊢
+    simp only at fp ⊢
+    cases hm : p.isMin
+    · simp only [Bool.not_false, if_true]
+      exact ⟨idxInv_congr hs.idx rfl rfl rfl rfl, fun _ => rfl, by intro d h; cases h⟩
+    · simp only [hm, Bool.not_true, Bool.false_eq_true, if_false] at fp ⊢
+      have hi2 := hi'
+      unfold setPolicy at hi2
+      rw [if_neg hp] at hi2
+      simp only [hm, Bool.not_true, Bool.false_eq_true, if_false] at hi2
+      refine ⟨hi2, ?_, ?_⟩
+      · intro h; rw [fp, hm] at h; cases h
+      · exact calcMin_bestIn (by intro d h; cases h)
+
+theorem minv_run (h : List SetEv) : ∀ (s : ASet), MInv s → HistMem s.n h → MInv (runSet s h) := by
+  induction h with
+  | nil => intro s hs _; exact hs
+  | cons e es ih =>
+    intro s hs hm
+    cases e with
+    | notify d a sn =>
+      obtain ⟨hd, hm'⟩ := hm
+      have n1 := (notify_frame s d a sn).1
+      exact ih (notify s d a sn).1 (minv_notify a sn hs hd) (by rw [n1]; exact hm')
+    | setPolicy p sa =>
+      have n1 := (setPolicy_frame s p sa).1
+      exact ih (setPolicy s p sa) (minv_setPolicy p sa hs) (by rw [n1]; exact hm)
+
+/-! ### group level, hypothesis-free part -/
+
+structure GMInv (g : Group) : Prop where
+  hasSets : g.hasSets = needsAlive g.policy
+  sets : ∀ t, MInv (g.sets t) ∧ (g.sets t).n = g.n
+
+theorem minv_notifyAll (alive : Nat → Bool) (snap : Nat → Option Int) :
+    ∀ (ds : List Nat) (s : ASet), (∀ d ∈ ds, d < s.n) → MInv s →
+      MInv (notifyAll s ds alive snap).1 ∧ (notifyAll s ds alive snap).1.n = s.n := by
+  intro ds
+  induction ds with
+  | nil => intro s _ hs; exact ⟨hs, rfl⟩
+  | cons d ds ih =>
+    intro s hds hs
+    rw [notifyAll_cons]
+    have n1 := (notify_frame s d (alive d) (snap d)).1
+    obtain ⟨h1, h2⟩ := ih (notify s d (alive d) (snap d)).1 (by intro d' hd'; rw [n1]; exact hds d' (by simp [hd']))
+      (minv_notify (alive d) (snap d) hs (hds d (by simp)))
+    exact ⟨h1, by rw [h2, n1]⟩
+
+theorem minv_built (n : Nat) (tol : Int) (offs : Nat → Int) (p : Policy) (snap : Nat → Option Int)
+    (alive : Nat → Bool) :
+    MInv (notifyAll (ASet.new n tol offs p false snap).1 (List.range n) alive snap).1 ∧
+    (notifyAll (ASet.new n tol offs p false snap).1 (List.range n) alive snap).1.n = n := by
+  obtain ⟨h0, n0⟩ := minv_notifyAll (fun _ => false) snap (List.range n) (ASet.init n tol offs p)
+    (by intro d hd; exact List.mem_range.mp hd) (minv_init n tol offs p)
+  have n0' : (ASet.new n tol offs p false snap).1.n = n := n0
+  obtain ⟨h1, n1⟩ := minv_notifyAll alive snap (List.range n) (ASet.new n tol offs p false snap).1
+    (by intro d hd; rw [n0']; exact List.mem_range.mp hd) h0
+  exact ⟨h1, by rw [n1, n0']⟩
+
+theorem minv_buildSets (g : Group) (p : Policy) (snap : Nat → Nat → Option Int) :
+    ∀ t, MInv ((buildSets g p snap).1 t) ∧ ((buildSets g p snap).1 t).n = g.n := by
+  unfold buildSets
+  have key : ∀ (ts : List Nat) (acc : (Nat → ASet) × List GCb),
+      (∀ t, MInv (acc.1 t) ∧ (acc.1 t).n = g.n) →
+      ∀ t, MInv ((ts.foldl (fun acc t =>
+        let r0 := ASet.new g.n g.tol g.offs p false (snap t)
+        let r1 := notifyAll r0.1 (List.range g.n) (g.alive t) (snap t)
+        (upd acc.1 t r1.1, acc.2 ++ (r0.2 ++ r1.2).map (fun b => (⟨b, t, false⟩ : GCb)))) acc).1 t) ∧
+        ((ts.foldl (fun acc t =>
+        let r0 := ASet.new g.n g.tol g.offs p false (snap t)
+        let r1 := notifyAll r0.1 (List.range g.n) (g.alive t) (snap t)
+        (upd acc.1 t r1.1, acc.2 ++ (r0.2 ++ r1.2).map (fun b => (⟨b, t, false⟩ : GCb)))) acc).1 t).n = g.n := by
+    intro ts
+    induction ts with
+    | nil => intro acc h; exact h
+    | cons t ts ih =>
+      intro acc h
+      simp only [List.foldl_cons]
+      apply ih
+      intro t'
+      simp only [upd]
+      split
+      · exact minv_built g.n g.tol g.offs p (snap t) (g.alive t)
+      · exact h t'
+  exact key (List.range 6) _ (fun _ => ⟨minv_init g.n g.tol g.offs p, rfl⟩)
+
+/-- every `notify` of a group history names a member -/
+def GHistMem (n : Nat) : List GEv → Prop
+  | [] => True
+  | .notify _ d _ _ :: es => d < n ∧ GHistMem n es
+  | .setPolicy _ _ _ :: es => GHistMem n es
+
+theorem gminv_gNew (n : Nat) (tol : Int) (offs : Nat → Int) (p : Policy) (fi : Int)
+    (alive : Nat → Nat → Bool) (snap : Nat → Nat → Option Int) :
+    GMInv (gNew n tol offs p fi alive snap).1 ∧ (gNew n tol offs p fi alive snap).1.n = n := by
+  unfold gNew
+  simp only
+  cases hna : needsAlive p
+  · simp only [Bool.false_eq_true, if_false]
+    exact ⟨⟨by simp [hna], fun _ => ⟨minv_init n tol offs p, rfl⟩⟩, trivial⟩
+  · simp only [if_true]
+    exact ⟨⟨by simp [hna], minv_buildSets (⟨n, tol, offs, p, fi, false, fun _ => ASet.init n tol offs p, alive⟩ : Group) p snap⟩, trivial⟩
+
+theorem gminv_step {g : Group} {e : GEv} (hg : GMInv g) (hm : GHistMem g.n [e]) :
+    GMInv (stepG g e) ∧ (stepG g e).n = g.n := by
+  cases e with
+  | notify t d a sn =>
+    have hd : d < g.n := hm.1
+    simp only [stepG, gNotify]
+    cases hh : g.hasSets
+    · simp only [Bool.false_eq_true, if_false]
+      exact ⟨⟨by have := hg.hasSets; rw [hh] at this; exact this, hg.sets⟩, trivial⟩
+    · simp only [if_true]
+      refine ⟨⟨by have := hg.hasSets; rw [hh] at this; exact this, ?_⟩, trivial⟩
+      intro t'
+      simp only [upd]
+      split
+      · obtain ⟨i1, i2⟩ := hg.sets t
+        exact ⟨minv_notify a sn i1 (by rw [i2]; exact hd), by rw [(notify_frame (g.sets t) d a sn).1, i2]⟩
+      · exact hg.sets t'
+  | setPolicy p fi snap =>
+    simp only [stepG, gSetPolicy]
+    cases h1 : needsAlive g.policy <;> cases h2 : needsAlive p
+    · simp only
+      exact ⟨⟨by simp only; rw [h2, ← h1]; exact hg.hasSets, hg.sets⟩, trivial⟩
+    · simp only
+      exact ⟨⟨by simp [h2], minv_buildSets g p snap⟩, trivial⟩
+    · simp only
+      exact ⟨⟨by simp [h2], hg.sets⟩, trivial⟩
+    · simp only
+      have hh : g.hasSets = true := by rw [hg.hasSets, h1]
+      refine ⟨⟨by simp only; rw [h2]; exact hh, ?_⟩, trivial⟩
+      intro t
+      obtain ⟨i1, i2⟩ := hg.sets t
+      simp only
+      split
+      · exact ⟨minv_setPolicy p (snap t) i1, by rw [(setPolicy_frame (g.sets t) p (snap t)).1, i2]⟩
+      · exact ⟨i1, i2⟩
+
+theorem gminv_run (h : List GEv) : ∀ (g : Group), GMInv g → GHistMem g.n h → GMInv (runG g h) := by
+  induction h with
+  | nil => intro g hg _; exact hg
+  | cons e es ih =>
+    intro g hg hm
+    have hm1 : GHistMem g.n [e] := by
+      cases e with
+      | notify t d a sn => exact ⟨hm.1, trivial⟩
+      | setPolicy p fi sn => trivial
+    obtain ⟨h1, h2⟩ := gminv_step hg hm1
+    refine ih (stepG g e) h1 ?_
+    rw [h2]
+    cases e with
+    | notify t d a sn => exact hm.2
+    | setPolicy p fi sn => exact hm
+
+/-! ### selection with only the hypothesis-free invariant -/
+
+theorem getMin_some' {s : ASet} (hb : ∀ d, s.minD = some d → ∃ e ∈ s.entries, e.d = d)
+    {excl : Option Nat} {d : Nat} {L : Int}
+    (h : getMin s excl = (some d, L)) : (∃ e ∈ s.entries, e.d = d) ∧ excl ≠ some d := by
+  rcases getMin_cases s excl with ⟨b, hb', hne, hg⟩ | ⟨_, hg⟩
+  · rw [hg] at h
+    have hbd : b = d := by simpa using congrArg (·.1) h
+    subst hbd
+    exact ⟨hb b hb', hne⟩
+  · rw [hg] at h
+    obtain ⟨_, _, h3, _⟩ := scanMin_spec s.entries excl
+    split at h
+    · have := h3 d (by rw [h])
+      exact ⟨⟨_, this.1, rfl⟩, this.2.1⟩
+    · cases h
+
+theorem select1_ok_alive {rnd : Nat → Nat → Nat} {g : Group} {t : NetType} {p : Policy} {fi : Int}
+    {excl : Option Nat} (hp : p ≠ .fixed) (hs : ∀ ty, MInv (g.sets ty)) {x : SelOk}
+    (h : select1 rnd g t p fi excl = .ok x) :
+    ∃ ty ∈ chain t p, (∃ e ∈ (g.sets ty.index).entries, e.d = x.d) ∧ excl ≠ some x.d := by
+  by_cases hr : p = .random
+  · subst hr
+    rw [select1_random] at h
+    by_cases hn : g.n = 0
+    · simp [hn] at h
+    · simp only [hn, if_false] at h
+      cases hf : firstPick (fun ty => getRand (rnd ty.index) (g.sets ty.index) excl) (chain t .random) with
+      | some r =>
+        obtain ⟨ty, d⟩ := r
+        obtain ⟨hty, hpick⟩ := firstPick_some hf
+        have hmem := (mem_randCands _ _ _).mp (getRand_mem hpick)
+        rw [hf] at h
+        simp only [Except.ok.injEq] at h
+        subst h
+        exact ⟨ty, hty, hmem.1, hmem.2⟩
+      | none => rw [hf] at h; cases h
+  · have hm : p.isMin = true := by cases p <;> simp_all [Policy.isMin]
+    rw [select1_min rnd g t p hm] at h
+    by_cases hn : g.n = 0
+    · simp [hn] at h
+    · simp only [hn, if_false] at h
+      cases hf : firstPick (fun ty =>
+          let r := getMin (g.sets ty.index) excl
+          r.1.map (fun d => (d, r.2))) (chain t p) with
+      | some r =>
+        obtain ⟨ty, d, l⟩ := r
+        obtain ⟨hty, hpick⟩ := firstPick_some hf
+        simp only at hpick
+        have hgm : getMin (g.sets ty.index) excl = (some d, l) := by
+          cases hq : getMin (g.sets ty.index) excl with
+          | mk a b =>
+            rw [hq] at hpick
+            cases a with
+            | none => simp at hpick
+            | some a => simp at hpick; rw [hpick.1, hpick.2]
+        have hal := getMin_some' (hs ty.index).bestIn hgm
+        rw [hf] at h
+        simp only [Except.ok.injEq] at h
+        subst h
+        exact ⟨ty, hty, hal.1, hal.2⟩
+      | none => rw [hf] at h; cases h
+
+theorem select_ok_alive {rnd : Nat → Nat → Nat → Nat} {g : Group} {t : NetType} {strict : Bool}
+    {excl : Option Nat} (hp : g.policy ≠ .fixed) (hs : ∀ ty, MInv (g.sets ty)) {x : SelOk}
+    (h : select rnd g t strict excl = .ok x) :
+    (∃ ty ∈ tried g t strict, (∃ e ∈ (g.sets ty.index).entries, e.d = x.d) ∧ excl ≠ some x.d) ∨
+    (strict = true ∧ g.n = 1 ∧ x.d = 0 ∧ x.lat = dialTimeout) := by
+  unfold select at h
+  cases h1 : select1 (rnd 0) g t g.policy g.fixedIdx excl with
+  | ok r =>
+    rw [h1] at h
+    simp only [Except.ok.injEq] at h
+    subst h
+    obtain ⟨ty, hty, hal⟩ := select1_ok_alive hp hs h1
+    exact Or.inl ⟨ty, (mem_tried g t strict ty).mpr (Or.inl hty), hal⟩
+  | error e =>
+    rw [h1] at h
+    cases e with
+    | noAlive =>
+      simp only at h
+      cases strict
+      · simp only [Bool.not_false, if_true] at h
+        obtain ⟨ty, hty, hal⟩ := select1_ok_alive hp hs h
+        exact Or.inl ⟨ty, (mem_tried g t false ty).mpr (Or.inr ⟨rfl, hty⟩), hal⟩
+      · simp only [Bool.not_true, Bool.false_eq_true, if_false] at h
+        by_cases hn : g.n = 1
+        · rw [if_pos hn, select1_lastResort _ _ _ _ hn] at h
+          simp only [Except.ok.injEq] at h
+          subst h
+          exact Or.inr ⟨rfl, hn, rfl, rfl⟩
+        · rw [if_neg hn] at h; cases h
+    | noDialers => cases h
+    | outOfRange => cases h
+    | unsupported => cases h
+
+
+/-! ### hypotheses of the full-strength statements (no bound on latencies/offsets) -/
+
+/-- `HistOk` without the `time.Hour` bound: members only, and a dialer the set has a latency for
+keeps reporting one. -/
+def EvOkNoBound (s : ASet) : SetEv → Prop
+  | .notify d _ sn => d < s.n ∧ (s.policy.isMin = true → s.lat d ≠ none → sn ≠ none)
+  | .setPolicy _ _ => True
+
+def HistOkNoBound : ASet → List SetEv → Prop
+  | _, [] => True
+  | s, e :: es => EvOkNoBound s e ∧ HistOkNoBound (stepSet s e) es
+
+theorem chooseSelect_cases (rnd : Nat → Nat → Nat → Nat → Nat) (g : Group) (t : NetType) (strict : Bool)
+    (excl : Option Nat) :
+    chooseSelect rnd g t strict excl = select (rnd 0) g t strict excl ∨
+    (select (rnd 0) g t strict excl = .error .noAlive ∧
+      chooseSelect rnd g t strict excl = select (rnd 1) g t.flip false excl) := by
+  unfold chooseSelect
+  cases h : select (rnd 0) g t strict excl with
+  | ok x => left; rfl
+  | error e => cases e <;> simp
+
+
+theorem firstPick_prefix {α} {pick : NetType → Option α} {ts : List NetType} {ty : NetType} {x : α}
+    (h : firstPick pick ts = some (ty, x)) :
+    ∃ pre post, ts = pre ++ ty :: post ∧ pick ty = some x ∧ ∀ ty' ∈ pre, pick ty' = none := by
+  induction ts with
+  | nil => simp [firstPick] at h
+  | cons t ts ih =>
+    unfold firstPick at h
+    cases hp : pick t with
+    | some y =>
+      rw [hp] at h
+      simp only [Option.some.injEq, Prod.mk.injEq] at h
+      obtain ⟨h1, h2⟩ := h
+      subst h1; subst h2
+      exact ⟨[], ts, rfl, hp, by simp⟩
+    | none =>
+      rw [hp] at h
+      obtain ⟨pre, post, e, hx, hpre⟩ := ih h
+      refine ⟨t :: pre, post, by rw [e]; rfl, hx, ?_⟩
+      intro ty' hty'
+      simp only [List.mem_cons] at hty'
+      rcases hty' with h | h
+      · rw [h]; exact hp
+      · exact hpre ty' h
+
+/-- `_select` consults the domains in order: the admitting domain is the first one of the chain
+with a selectable (alive, not excluded) member. -/
+theorem select1_first_selectable {rnd : Nat → Nat → Nat} {g : Group} {t : NetType} {p : Policy} {fi : Int}
+    {excl : Option Nat} (hp : p ≠ .fixed) (hs : ∀ ty, SInv (g.sets ty)) {x : SelOk}
+    (h : select1 rnd g t p fi excl = .ok x) :
+    ∃ pre ty post, chain t p = pre ++ ty :: post ∧
+      ((∃ e ∈ (g.sets ty.index).entries, e.d = x.d) ∧ excl ≠ some x.d) ∧
+      ∀ ty' ∈ pre, ∀ e ∈ (g.sets ty'.index).entries, excl = some e.d := by
+  by_cases hr : p = .random
+  · subst hr
+    rw [select1_random] at h
+    by_cases hn : g.n = 0
+    · simp [hn] at h
+    · simp only [hn, if_false] at h
+      cases hf : firstPick (fun ty => getRand (rnd ty.index) (g.sets ty.index) excl) (chain t .random) with
+      | some r =>
+        obtain ⟨ty, d⟩ := r
+        obtain ⟨pre, post, e, hpick, hpre⟩ := firstPick_prefix hf
+        have hmem := (mem_randCands _ _ _).mp (getRand_mem hpick)
+        rw [hf] at h
+        simp only [Except.ok.injEq] at h
+        subst h
+        refine ⟨pre, ty, post, e, hmem, ?_⟩
+        intro ty' hty' e' he'
+        have := (getRand_none_iff _ _ _).mp (hpre ty' hty')
+        apply Classical.byContradiction
+        intro hne
+        have : e'.d ∈ randCands (g.sets ty'.index) excl := (mem_randCands _ _ _).mpr ⟨⟨e', he', rfl⟩, hne⟩
+        simp_all
+      | none => rw [hf] at h; cases h
+  · have hm : p.isMin = true := by cases p <;> simp_all [Policy.isMin]
+    rw [select1_min rnd g t p hm] at h
+    by_cases hn : g.n = 0
+    · simp [hn] at h
+    · simp only [hn, if_false] at h
+      cases hf : firstPick (fun ty =>
+          let r := getMin (g.sets ty.index) excl
+          r.1.map (fun d => (d, r.2))) (chain t p) with
+      | some r =>
+        obtain ⟨ty, d, l⟩ := r
+        obtain ⟨pre, post, e, hpick, hpre⟩ := firstPick_prefix hf
+        simp only at hpick
+        have hgm : getMin (g.sets ty.index) excl = (some d, l) := by
+          cases hq : getMin (g.sets ty.index) excl with
+          | mk a b =>
+            rw [hq] at hpick
+            cases a with
+            | none => simp at hpick
+            | some a => simp at hpick; rw [hpick.1, hpick.2]
+        have hal := getMin_some (hs ty.index) hgm
+        rw [hf] at h
+        simp only [Except.ok.injEq] at h
+        subst h
+        refine ⟨pre, ty, post, e, hal, ?_⟩
+        intro ty' hty'
+        have := hpre ty' hty'
+        simp only [Option.map_eq_none_iff] at this
+        exact (getMin_none_iff (hs ty'.index) excl).mp this
+      | none => rw [hf] at h; cases h
+
+/-- the documented order of the data-UDP chain -/
+theorem chain_data_udp (ip6 isDns : Bool) (p : Policy) (hp : p ≠ .fixed) :
+    (chain ⟨true, ip6, isDns, .data⟩ p).map NetType.index =
+      [4 + (if ip6 then 1 else 0), 0 + (if ip6 then 1 else 0), 2 + (if ip6 then 1 else 0)] := by
+  cases p <;> cases ip6 <;> cases isDns <;> first | exact absurd rfl hp | rfl
+
+/-! ### the dialer side: a measurement, once there, stays -/
+
+theorem append_lats_ne_nil (c : Coll) (l : Int) : (c.append l).lats ≠ [] := by
+  simp only [Coll.append]
+  split
+  · rename_i hlen
+    intro hq
+    have h1 := congrArg List.length hq
+    rw [List.length_drop] at h1
+    simp only [List.length_nil] at h1
+    omega
+  · simp
+
+theorem snapshot_stays (c : Coll) (p : Policy) (pen pen' l : Int) (hl : 1 ≤ l)
+    (h : (c.snapshot p pen).isSome = true) : ((c.append l).snapshot p pen').isSome = true := by
+  have hne := append_lats_ne_nil c l
+  cases p with
+  | random => simp [Coll.snapshot] at h
+  | fixed => simp [Coll.snapshot] at h
+  | minLast =>
+    simp only [Coll.snapshot, Option.isSome_map]
+    exact List.getLast?_isSome.mpr hne
+  | minAvg10 =>
+    simp only [Coll.snapshot]
+    have : (c.append l).lats.isEmpty = false := by
+      cases hq : (c.append l).lats with
+      | nil => exact absurd hq hne
+      | cons a b => rfl
+    simp [this]
+  | minMovAvg =>
+    simp only [Coll.snapshot] at h ⊢
+    have hpos : c.movAvg > 0 := by
+      by_cases hp : c.movAvg > 0
+      · exact hp
+      · simp [hp] at h
+    have : (c.append l).movAvg > 0 := by
+      simp only [Coll.append]
+      rw [Int.tdiv_eq_ediv_of_nonneg (by omega)]
+      omega
+    simp [this]
 
 end DaeVerif.C15
